@@ -462,7 +462,7 @@ Lemma batch_read_spec c m s t maxb ck nid : cfg_ok c ->
     (k <= length U)%nat /\ (U <> [] -> (1 <= k)%nat) /\
     unread c ts' = (if ck then skipn k U else U).
 Proof.
-  intros (Hh & Hb0 & Hba & Hbm & Hme) Hinv ts U.
+  intros (Hh & Hb0 & Hba & Hbm & Hme & Hhb) Hinv ts U.
   pose proof Hinv as [Hp Hu Hch Hw Hnd Hids Htl Hidx Hend Hcur Hst Htail Hhyd Hcnt].
   fold ts in Hp, Hu, Hch, Hw, Hnd, Hids, Htl, Hidx, Hend, Hcur, Hst, Htail, Hhyd, Hcnt.
   unfold batch_read, br_position, br_from. fold ts. rewrite Hp.
